@@ -5,10 +5,16 @@
     text (nearest, ties to even on the exact value, unit interval, monotone, format).
 (A) tables of strings (+ float columns) through pandas' DataFrame.to_csv exactly as blob_to_csv calls it, and
     generated taxonomies / result blobs with wild node names through the REAL blob_to_csv: the file text must
-    equal CsvText.csv_file (1550) byte for byte; pandas.read_csv(path, comment='#') -- the call docs/output.md
-    and the notebooks give -- must return the fields whenever the model says the table is well_shaped (1553);
+    equal CsvText.csv_file (1550) byte for byte; pandas.read_csv(path, comment='#') -- the call of the
+    example notebooks (docs/output.md names no reader), here with dtype=str, keep_default_na=False -- must return the fields whenever the model says the table is well_shaped (1553);
     the raw tokenizer output of pandas must equal CsvText.csv_parse (1551) on the written files and on a
-    separate stream of arbitrary (malformed) texts."""
+    separate stream of arbitrary (malformed) texts.
+(C) files larger than pandas' 262144-byte tokenizer chunk through the real blob_to_csv: a well_shaped table (cell
+    ids with QUOTED leading blanks) must read back field for field; cell ids with UNQUOTED leading blanks placed on
+    the chunk boundary lose blanks (finding F32; excluded from well_shaped).
+The reader modelled is the tokenizer, i.e. read_csv(comment='#', dtype=str, keep_default_na=False); what pandas'
+default type inference makes of labels like NA / 007 / None / 1e5 is observed (default_reader_observation) and not
+judged: it is the choice of the reader's caller, not a statement about what the CSV holds."""
 import copy
 import io
 import json
@@ -23,6 +29,8 @@ from harness.core import exc_class
 
 F_HASH = 'F20-csv-unquoted-hash-lost-by-reader-with-comment'
 F_CR = 'F21-csv-carriage-return-written-unquoted'
+F_CHUNK = 'F32-csv-leading-blank-lost-at-pandas-chunk-boundary'
+CHUNK = 262144
 
 PLAIN = 'abcdeXYZ0123_-.'
 SPECIAL = [',', '"', '\n', '\r', '#', ' ', '\t', "'", ';', '\\', '|', '/', 'é', '€', '\U0001d4b3', '\x0c', '\x85',
@@ -181,7 +189,7 @@ def float_cases(ctx):
     cases = [gen_float(rng) for _ in range(n)]
     observed = ['%.4f' % x for _, x in cases]
     parts = [float_parts(x) for _, x in cases]
-    res = ctx.model([(1552, p) for p in parts] + [(1554, enc(t.lstrip('-'))) for t in observed])
+    res = ctx.model([(1552, p) for p in parts] + [(1554, enc(t)) for t in observed])
     order = []
     for i, ((kind, x), text, p) in enumerate(zip(cases, observed, parts)):
         ctx.dist('float kind', kind)
@@ -198,7 +206,7 @@ def float_cases(ctx):
         elif NUM4.match(text):
             k = m[1][0]
             back = res[n + i]
-            if back != [0, [k]]:
+            if back != [0, [-k if text.startswith('-') else k]]:
                 ctx.violation(f'parse_fixed4 of {text!r} gives {back}, fmt4k {k}',
                               dict(rec, **{'class': 'corr:CsvText.run_parse_fixed4'}), no_input=True)
             if not p[0]:
@@ -243,7 +251,7 @@ def backtrack_quirk(text):
 
 
 def user_read(path):
-    """docs/output.md: pd.read_csv(path, comment='#') (+ dtype=str, keep_default_na=False to see the fields)."""
+    """The notebooks' pd.read_csv(path, comment='#') (+ dtype=str, keep_default_na=False to see the fields)."""
     import pandas as pd
     try:
         df = pd.read_csv(path, comment='#', dtype=str, keep_default_na=False)
@@ -276,8 +284,11 @@ def judge_files(ctx, recs):
         has_hash = any('#' in f for f in unq)
         has_cr = any('\r' in f for f in unq)
         blank_single = any(len(row) == 1 and row[0] != '' and row[0].strip(' \t') == '' for row in rows)
+        lead_blank = any(row and row[0][:1] in (' ', '\t') and not needs_quote(row[0]) for row in rows)
+        bad_char = any(c == '\x00' or 0xD800 <= ord(c) <= 0xDFFF for row in rows for f in row for c in f)
         # the model's hypotheses are what the harness thinks they are
-        if bool(ws0) != (not has_cr and not blank_single and all(rows)) or bool(ws1) != (bool(ws0) and not has_hash):
+        if bool(ws0) != (not has_cr and not blank_single and all(rows) and not lead_blank and not bad_char) \
+                or bool(ws1) != (bool(ws0) and not has_hash):
             ctx.violation(f'{r["kind"]}: well_shaped flags {ws0} {ws1} unexpected for {rows!r}',
                           dict(rec, **{'class': 'corr:CsvText.well_shaped'}), no_input=True)
         want = [[[enc(f) for f in row] for row in rows]]
@@ -288,6 +299,8 @@ def judge_files(ctx, recs):
         # (b) the tokenizer of pandas on the written file == csv_parse
         if not text_ok:
             pass                # the reader is compared on files the model predicts
+        elif r.get('chunk_case') and lead_blank:
+            ctx.dist('written file', 'reader correspondence skipped (leading blanks on a chunk boundary: F32)')
         elif not backtrack_quirk(r['text']):
             width = max([len(x) for x in rows] + [len(x) for m in (m_p0, m_p1) if m[1] for x in m[1][0]] + [1]) + 2
             for cm, m in ((None, m_p0), ('#', m_p1)):
@@ -307,8 +320,16 @@ def judge_files(ctx, recs):
                 ctx.violation(f'{r["kind"]}: pd.read_csv(comment="#") of the written file gives {r["user"]!r} for the '
                               f'fields {rows!r} (text {r["text"]!r})', dict(rec, **{'class': 'csv-readback'}))
         elif not ok:
-            cls = F_CR if has_cr else F_HASH if has_hash else 'csv-readback-excluded-shape'
-            ctx.dist('written file', 'known: ' + ('unquoted CR' if has_cr else 'unquoted #' if has_hash else 'blank 1-col'))
+            chunk = lead_blank and len(r['text']) > CHUNK
+            cls = F_CR if has_cr else F_HASH if has_hash else F_CHUNK if chunk else 'csv-readback-excluded-shape'
+            ctx.dist('written file', 'known: ' + ('unquoted CR' if has_cr else 'unquoted #' if has_hash else
+                                                  'leading blank on a chunk boundary' if chunk else 'blank 1-col'))
+            if chunk:
+                diff = [(a, b) for a, b in zip(rows, r['user'] if isinstance(r['user'], list) else []) if a != b]
+                ctx.violation(f'{r["kind"]}: pd.read_csv(comment="#") of a {len(r["text"])}-byte file loses leading blanks '
+                              f'of a cell id that straddle the {CHUNK}-byte tokenizer chunk: {diff[:2]!r}',
+                              dict(rec, **{'class': cls}))
+                continue
             if blank_single and not has_cr and not has_hash:
                 continue        # a one-column table, not a shape blob_to_csv produces: excluded (assumption)
             ctx.violation(f'{r["kind"]}: pd.read_csv(comment="#") loses fields: {r["user"]!r} for {rows!r}',
@@ -527,6 +548,7 @@ def blob_cases(ctx):
     for x, m in zip(floats, ctx.model([(1552, float_parts(x)) for x in floats])):
         ftext[float(x).hex()] = dec(m[1][1])
     recs = []
+    composed = []
     for i, (case, res, (ck, cl)) in enumerate(zip(cases, real_vals, conf)):
         data = case['tree']
         hierarchy = data['hierarchy']
@@ -576,9 +598,134 @@ def blob_cases(ctx):
         ctx.dist('confidence dtype', str({type(c[l][ck]).__name__ for c in res for l in hierarchy}))
         ctx.count(('b', json.dumps(rows)), nontrivial=any(needs_quote(f) for row in rows for f in row))
         recs.append({'kind': 'blob_to_csv', 'bodies': bodies, 'rows': rows, 'text': text, 'user': user, 'case': case})
+        # the same file against CsvText.blob_to_csv_text (the composition of the record model with the writer)
+        c15case = {'tree': data, 'w': 0, 'single_iter': case['single_iter'], 'meta_name': case['meta_name'],
+                   'flatten_cfg': case['flatten_cfg'],
+                   'results': [{k: (v if k == 'cell_id' else
+                                    {kk: (float(vv) if kk in ('bootstrapping_probability', 'avg_correlation',
+                                                              'aggregate_probability') else vv)
+                                     for kk, vv in v.items()}) for k, v in cell.items()} for cell in res]}
+        composed.append((c15case, text, case))
         if i == 0:
             ctx.sample({'blob_to_csv text': text})
     judge_files(ctx, recs)
+    from harness.props import c15
+    model_in, kept = [], []
+    for c15case, text, case in composed:
+        names = c15.Names()
+        args = c15.csv_model_args(c15case, names)
+        call, neg_zero = c15.csv_text_input(c15case, names, args)
+        if neg_zero:
+            ctx.dist('blob_to_csv file vs blob_to_csv_text', 'skipped: a -0.0 in the blob')
+            continue
+        model_in.append(call)
+        kept.append((text, case))
+    for (text, case), m in zip(kept, ctx.model(model_in)):
+        if m[0] == 0 and dec(m[1][0]) == text:
+            ctx.dist('blob_to_csv file vs blob_to_csv_text', 'byte for byte equal'
+                     + (', well_shaped for the comment reader' if m[1][1] and m[1][2] else ''))
+        else:
+            ctx.violation(f'blob_to_csv: the file differs from CsvText.blob_to_csv_text: real {text!r} model '
+                          f'{dec(m[1][0]) if m[0] == 0 else m!r}',
+                          {'class': 'corr:CsvText.run_blob_to_csv_text', 'kind': 'blob_to_csv', 'case': case},
+                          no_input=True)
+
+
+# ------------------------------------------------------------------ (C) files larger than one tokenizer chunk
+def big_file_cases(ctx):
+    import csv
+    import cell_type_mapper
+    from cell_type_mapper.utils.output_utils import blob_to_csv
+    from cell_type_mapper.taxonomy.taxonomy_tree import TaxonomyTree
+    scratch = ctx.scratch / 'csvtext_big'
+    (scratch / 'some' / 'dir').mkdir(parents=True, exist_ok=True)
+    data = {'hierarchy': ['class'], 'class': {'A': [], 'B, b': []}}
+    tree = TaxonomyTree(data=copy.deepcopy(data))
+    n_cells = 10500
+    recs = []
+    for kind, fmt in (('unquoted leading blanks', '   cell %06d'), ('quoted leading blanks', '  cell,%06d')):
+        ids = [fmt % i for i in range(n_cells)]
+        res = [{'cell_id': c, 'class': {'assignment': 'A' if i % 3 else 'B, b', 'bootstrapping_probability': 0.5,
+                                        'avg_correlation': 0.25, 'runner_up_assignment': [],
+                                        'runner_up_correlation': [], 'runner_up_probability': [],
+                                        'aggregate_probability': 0.5, 'directly_assigned': True}}
+               for i, c in enumerate(ids)]
+        header = ['cell_id', 'class_label', 'class_name', 'class_alias', 'class_bootstrapping_probability']
+        rows = [header] + [[c, r['class']['assignment'], r['class']['assignment'], r['class']['assignment'], '0.5000']
+                           for c, r in zip(ids, res)]
+        path = scratch / 'big.csv'
+        pad = 0
+        for attempt in range(2):
+            # second pass: the metadata file name is lengthened so that the START of a row lies two bytes before the
+            # chunk boundary (two of the leading blanks before it, the rest of the cell id after it)
+            meta_name = 'o' * (pad + 1) + '.json'
+            with warnings.catch_warnings():
+                warnings.simplefilter('ignore')
+                blob_to_csv(results_blob=copy.deepcopy(res), taxonomy_tree=tree, output_path=path,
+                            confidence_key='bootstrapping_probability', confidence_label='bootstrapping_probability',
+                            metadata_path=str(scratch / 'some' / 'dir' / meta_name), config=None)
+            text = open(path, newline='').read()
+            starts, pos = [], text.index('cell_id,')
+            for ln in text[pos:].split('\n')[:-1]:
+                starts.append(pos)
+                pos += len(ln) + 1
+            after = [(st, i) for i, st in enumerate(starts) if st >= CHUNK - 2 and i >= 1]
+            s0, i0 = after[0]
+            if s0 == CHUNK - 2:
+                break
+            prev_len = starts[i0] - starts[i0 - 1]
+            pad += (CHUNK - 2) - (s0 - prev_len)
+        assert len(text) > CHUNK and any(st == CHUNK - 2 for st in starts), (len(text), s0)
+        user = user_read(path)
+        plain = [r for r in csv.reader(io.StringIO(text, newline='')) if not (r and r[0].startswith('#'))]
+        path.unlink()
+        bodies = [f' metadata = {meta_name}', f' taxonomy hierarchy = {json.dumps(data["hierarchy"])}',
+                  f' codebase: {cell_type_mapper.__repository__}; version: {cell_type_mapper.__version__}']
+        ctx.count(('big', kind), nontrivial=True)
+        ctx.dist('file > 256 KiB', f'{kind}: {len(text)} bytes, a row starts at byte {CHUNK - 2}')
+        if plain != rows:
+            ctx.violation(f'big file ({kind}): csv.reader does not find the fields in the written file',
+                          {'class': 'csv-big-file-text', 'kind': 'big', 'case': kind})
+        recs.append({'kind': 'blob_to_csv > 256 KiB, ' + kind, 'bodies': bodies, 'rows': rows, 'text': text,
+                     'user': user, 'case': {'big': kind}, 'chunk_case': True})
+    # the extracted model recurses over lists of ~300000 code points (List.map / app are not tail recursive in the
+    # extraction): give the driver process a larger stack for this one call
+    import resource
+    soft, hard = resource.getrlimit(resource.RLIMIT_STACK)
+    want = 4 << 30
+    resource.setrlimit(resource.RLIMIT_STACK, (want if hard == resource.RLIM_INFINITY else min(want, hard), hard))
+    try:
+        judge_files(ctx, recs)
+    finally:
+        resource.setrlimit(resource.RLIMIT_STACK, (soft, hard))
+
+
+def default_reader_observation(ctx):
+    """pd.read_csv(path, comment='#') with pandas' defaults type-infers every column: observed, not judged (the
+    property speaks of what the CSV holds).  With dtype=str, keep_default_na=False the labels come back verbatim."""
+    import pandas as pd
+    from cell_type_mapper.utils.output_utils import blob_to_csv
+    from cell_type_mapper.taxonomy.taxonomy_tree import TaxonomyTree
+    labels = ['NA', '007', 'None', '1e5', 'nan', 'True', 'NULL', '1.50', 'B cell']
+    path = ctx.scratch / 'defaults.csv'
+    ctx.count(('default-reader',), nontrivial=False)
+    for a in labels:       # one file per label: pandas infers the type of a column from all of its values
+        data = {'hierarchy': ['class'], 'class': {a: []}}
+        res = [{'cell_id': f'c{i}', 'class': {'assignment': a, 'bootstrapping_probability': 0.5, 'avg_correlation': 0.25,
+                                              'runner_up_assignment': [], 'runner_up_correlation': [],
+                                              'runner_up_probability': [], 'aggregate_probability': 0.5,
+                                              'directly_assigned': True}} for i in range(2)]
+        with warnings.catch_warnings():
+            warnings.simplefilter('ignore')
+            blob_to_csv(results_blob=res, taxonomy_tree=TaxonomyTree(data=data), output_path=path,
+                        confidence_key='bootstrapping_probability', confidence_label='bootstrapping_probability')
+            default = list(pd.read_csv(path, comment='#')['class_label'])
+            verbatim = list(pd.read_csv(path, comment='#', dtype=str, keep_default_na=False)['class_label'])
+        path.unlink()
+        ctx.dist('label read with pandas defaults (not judged)', f'{a!r} -> {default[0]!r}')
+        if verbatim != [a, a]:
+            ctx.violation(f'read_csv(comment="#", dtype=str, keep_default_na=False) gives {verbatim!r} for {a!r}',
+                          {'class': 'csv-readback', 'kind': 'defaults', 'case': a})
 
 
 # ------------------------------------------------------------------ the reader on arbitrary (malformed) texts
@@ -618,11 +765,18 @@ def run_part(ctx):
                  'iterations, tiny, large (to 2^1023), dyadic sums, negatives and -0.0; non-trivial = table with >= 2 '
                  'columns, >= 1 row and a quoted field / every double / text with >= 1 row')
     ctx.assumptions += [
-        'CSV text: code points are valid Unicode scalars without NUL and BOM (the file is written as UTF-8; pandas\' C '
-        'reader cuts a field at NUL; the real file always starts with #, so a BOM cannot lead it); Python 3.12 '
+        'CSV text: code points are valid Unicode scalars without NUL and BOM (the file is written as UTF-8: a surrogate '
+        'makes the writer raise UnicodeEncodeError; pandas\' C reader cuts a field at NUL; both are excluded by '
+        'CsvText.well_shaped; the real file always starts with #, so a BOM cannot lead it); Python 3.12 '
         'csv.writer (3.13 quotes CR) and os.linesep == LF',
-        'CSV text: read_csv is called with dtype=str, keep_default_na=False on top of the documented comment="#" so '
-        'that fields come back verbatim (with the defaults NA / nan / numbers are converted by pandas)',
+        'CSV text: the reader modelled is the TOKENIZER: read_csv is called with dtype=str, keep_default_na=False on '
+        'top of the comment="#" of the example notebooks (docs/output.md names no reader).  With pandas\' defaults '
+        'the labels NA / None / nan / NULL come back as NaN, 007 as 7, 1e5 as 100000.0, a column of True/False as '
+        'bool: that type inference is chosen by the caller of the reader and says nothing about what the CSV holds '
+        '(the text of C15), so it is observed (dist "label read with pandas defaults") and not judged (no F33)',
+        'CSV text: a row whose first field (cell id) starts with an UNQUOTED blank / tab is outside well_shaped: '
+        'pandas\' tokenizer loses the blanks of such a row that lie before a 262144-byte chunk boundary (F32, shown '
+        'on a file > 256 KiB); a file > 256 KiB whose cell ids have QUOTED leading blanks must read back exactly',
         'CSV text: column names are non-empty and pairwise distinct (pandas renames duplicates and empty names on '
         'reading); a ONE-column table whose field is blanks only reads as a blank line (not a shape blob_to_csv '
         'writes: it has >= 3 columns) -- c15_csv_text_roundtrip excludes it',
@@ -637,3 +791,5 @@ def run_part(ctx):
     table_cases(ctx)
     blob_cases(ctx)
     reader_cases(ctx)
+    big_file_cases(ctx)
+    default_reader_observation(ctx)
